@@ -70,6 +70,7 @@ type FuncContract struct {
 	LocalAlias map[string]LocalAlias // name a contract uses for a local -> how to find it if it was renamed
 	Trusted  bool
 	NoReturn bool
+	Inline   bool
 	Bounded  int
 	mergeProps []string
 	Implements string // slot whose contract this function is verified against (own asserts/loop clauses are merged in)
@@ -214,7 +215,7 @@ func stripComment(s string) string {
 	return s
 }
 
-var kwRe = regexp.MustCompile(`^\s*(group|func|extern|slot|requires|ensures|modifies|invariant|history|loop|ghostinit|ghost|pure|lemma|axiom|const|global|assert|mode|maypanic|noinv|use|callslot|trusted|bounded|pkg|end|implements|macro|promise|noreturn|local|snapshot)\b`)
+var kwRe = regexp.MustCompile(`^\s*(group|func|extern|slot|requires|ensures|modifies|invariant|history|loop|ghostinit|ghost|pure|lemma|axiom|const|global|assert|mode|maypanic|noinv|use|callslot|trusted|bounded|pkg|end|implements|macro|promise|noreturn|local|snapshot|inline)\b`)
 
 var labelRe = regexp.MustCompile(`^\s*([A-Za-z_][A-Za-z0-9_]*)\s*:\s*(.*)$`)
 var propsRe = regexp.MustCompile(`^\s*\[([A-Z0-9, ]+)\]\s*(.*)$`)
@@ -362,6 +363,10 @@ func (c *Contracts) LoadFile(path string) error {
 		case "trusted":
 			cur.Trusted = true
 			c.Assumptions = append(c.Assumptions, "trusted (body not verified): "+cur.Name+" @ "+l.where)
+		case "inline":
+			// the function is verified against this contract, but its callers execute its body
+			// (its contract states facts about the primitive; callers keep seeing inside it)
+			cur.Inline = true
 		case "noreturn":
 			// the function never returns normally (it exits the process or panics)
 			cur.NoReturn = true
